@@ -120,6 +120,49 @@ def gen_capture_probe(src, opts):
     return ("sub", bound, tuple(subs))
 
 
+def gen_integrate_probe(seed):
+    """Integrate whose reduced variables are mentioned by only one of its two fields (measure / integrand), or by neither;
+    names drawn from the small pool shared with the free inputs."""
+    g = G(SeedSource(seed), Opts(max_names=3))
+    names = g.perm(sorted(g.sizes))
+    if len(names) < 2:
+        return ("num", 0.5, "real")
+    m_names = names[:1] + (names[2:3] if g.chance(0.3) else [])
+    i_names = g.subset(names, 1, len(names))
+    only_i = [n for n in i_names if n not in m_names]
+    if not only_i and g.chance(0.8):
+        extra = [n for n in names if n not in m_names]
+        if extra:
+            i_names = i_names + [g.pick(extra)]
+            only_i = [n for n in i_names if n not in m_names]
+
+    def ten(ns):
+        ins = tuple((n, g.sizes[n]) for n in dict.fromkeys(ns))
+        return ("ten", ins, (), "real", g.real_data(g.numel([s_ for _, s_ in ins])), False)
+
+    lm = ten(g.perm(m_names))
+    ig = ten(g.perm(i_names))
+    if g.chance(0.3):
+        ig = ("bin", g.pick(["mul", "add"]), ig, ten(g.subset(names, 1, 2)))
+    r = g.rint((0, 3))
+    if r == 0 and only_i:
+        vs = [g.pick(only_i)]
+    elif r == 1 and only_i:
+        vs = [m_names[0], g.pick(only_i)]
+    elif r == 2:
+        vs = g.subset(names, 1, len(names))
+    else:
+        vs = [m_names[0]]
+    inp = dict(typeof(lm)[0])
+    inp.update(typeof(ig)[0])
+    node = ("integrate", lm, ig, tuple((n, inp[n][0] if n in inp else g.sizes[n]) for n in dict.fromkeys(vs)))
+    if g.chance(0.3):
+        # used inside a larger term that re-uses the names freely
+        node = ("bin", "add", node, ten(g.subset(names, 1, 2)))
+    typeof(node)
+    return node
+
+
 def cases(opts):
     base = exprs(opts, None)
     probe = st.integers(0, 2**40).map(robust_gen(lambda s: gen_capture_probe(SeedSource(s), opts)))
@@ -159,7 +202,9 @@ class C05(Prop):
         a = cases(Opts(max_depth=d, max_names=3, binders_extra=True))
         b = cases(Opts(max_depth=d, max_names=3, binders_extra=True, reals=True))
         pm = cases(Opts(max_depth=2, max_names=3, binders_extra=True, reals=True, deltas=True, consts=True))
-        main = st.tuples(st.one_of(a, a, b, pm), st.sampled_from(MODES)).map(lambda t: {"ast": t[0], "mode": t[1]})
+        ib = cases(Opts(max_depth=2, max_names=3, binders_extra=True, integrate_weight=12))  # Integrate over variables one of its fields lacks
+        ip = st.integers(0, 2**40).map(robust_gen(gen_integrate_probe))
+        main = st.tuples(st.one_of(a, a, b, pm, ib, ip), st.sampled_from(MODES)).map(lambda t: {"ast": t[0], "mode": t[1]})
         # histories: a lazy binder, then N unrelated binders with their own names, then a substitution whose value has a
         # free input named like the binder and a second binder re-using the name (the fresh-name supply must never reissue a name)
         hist = st.tuples(st.sampled_from(["i", "j", "a"]), st.sampled_from(["i", "j", "b"]), st.sampled_from([0, 1, 7, 40, 130, 150, 260, 400]),
